@@ -27,8 +27,25 @@ LIVE_METHODS = ['update', 'update_ttl', 'load', 'delete', 'change_id']
 
 
 def impl_method_bodies(ctx, crate, self_ty, method):
+    """the bodies of the trait method, plus the crate's own non-public functions it calls (a statement built by `statements::insert(..)` is
+    still the statement `create` executes)"""
     root = '<%s as %s>::%s' % (self_ty, BACKEND, method)
-    return ctx.fb.bodies_of_item(crate, root)
+    out = list(ctx.fb.bodies_of_item(crate, root))
+    seen = {root}
+    work = list(out)
+    for _ in range(3):
+        nxt = []
+        for b in work:
+            for bb, t in b.calls():
+                c = callee(t) or ''
+                if c.startswith(crate + '::') and c not in seen and BACKEND not in c:
+                    seen.add(c)
+                    hb = [x for x in ctx.fb.bodies_of_item(crate, c) if not x.is_promoted]
+                    if hb and hb[0].raw.get('vis') != 'Public':
+                        nxt += hb
+        out += nxt
+        work = nxt
+    return out
 
 
 def sql_of(bodies):
@@ -167,27 +184,54 @@ def r1_sqlite(ctx):
     per, n_sql = sql_rules(ctx, SQ, 'pavex_session_sqlx::sqlite::SqliteSessionStore', 'unixepoch()', 'sqlite')
     ctx.count('sqlite_sql_constants', n_sql)
     ctx.floor('C13.R1', 'SQL constants in the SQLite store', n_sql, 8)
-    # unknown-id mapping
+    # unknown-id mapping — P11 case evaluation: the method is interpreted with the statement executing fine and changing NO row: every path
+    # must return an error (whatever the idiom: a helper that maps 0 rows to UnknownId, a `match` on an outcome enum, an early return ..)
+    from ..absint_std import StdSem, TagInterp
+
+    class RowsSem(StdSem):
+        crate = SQ
+
+        def __init__(self, fb, rows):
+            super().__init__(fb)
+            self.rows, self.execs = rows, 0
+
+        def domain_call(self, interp, path, body, bb, term, short):
+            d = term.get('dest')
+            dk = (body.id, d['l']) if d is not None and not d.get('p') else None
+            if short == 'sqlx_core::query::Query::execute' and dk is not None:
+                self.execs += 1
+                path.tags[dk] = 'fut:res:Ok'
+                path.env['executed'] = True
+                return [('next', path)]
+            if short.endswith('::rows_affected') and dk is not None:
+                path.alias.pop(dk, None)
+                path.tags.pop(dk, None)
+                path.num[dk] = self.rows
+                return [('next', path)]
+            return None
+
+        def descend_into(self, short):
+            return BACKEND not in short
+
     for m in ['update', 'update_ttl', 'delete', 'change_id']:
         if m not in per:
             continue
         found = False
         for b in per[m][0]:
             execs = [bb for bb, t in b.calls() if callee(t) == 'sqlx_core::query::Query::execute']
-            if not execs:
+            if not execs or BACKEND not in b.nroot:
                 continue
             found = True
-            unk = [bb for bb, t in b.calls() if callee(t) == 'pavex_session_sqlx::sqlite::as_unknown_id_error']
-            # Ok arm: the switch on the awaited Result
-            derived = forward_derived(b, {b.term(execs[0])['dest']['l']}, through_calls=True)
-            ok_targets = _success_targets(b, derived, unk)
-            rets = set(b.return_blocks())
-            bad = False
-            for tg in ok_targets:
-                if body_reaches(b, tg, rets, avoid=unk):
-                    bad = True
-            ctx.ob('C13.R1', 'sqlite|%s|zero-rows-is-unknown-id' % m, bool(ok_targets) and bool(unk) and not bad, b.loc(execs[0]),
-                   'every path from the Ok arm of execute() to return passes through as_unknown_id_error: %s' % (not bad))
+            sem = RowsSem(ctx.fb, '0')
+            try:
+                outs = TagInterp(sem, max_paths=4000).run(b, {})
+            except RuntimeError:
+                outs = None
+            after = [oc for oc in (outs or []) if oc[0] == 'return' and oc[1].env.get('executed')]
+            bad = [oc for oc in after if oc[1].tags.get((b.id, 0)) != 'res:Err']
+            ctx.ob('C13.R1', 'sqlite|%s|zero-rows-is-unknown-id' % m, outs is not None and bool(after) and not bad, b.loc(execs[0]),
+                   '%s interpreted with the statement succeeding and rows_affected() == 0: %d path(s) return, %d of them do not return an error'
+                   % (m, len(after), len(bad)))
         ctx.need('C13.R1', 'execute() call in sqlite %s' % m, found)
     # create: the conditional upsert changes no row when a LIVE record already has this id; reporting that as success means the caller's
     # record was not stored (and the in-memory sibling answers DuplicateId)
@@ -204,7 +248,7 @@ def r1_sqlite(ctx):
             ctx.ob('C13.R1', 'sqlite|create|zero-rows-is-duplicate-id', bool(ok_targets) and bool(rows) and not unchecked, b.loc(execs[0]),
                    'the Ok arm of the conditional upsert %s rows_affected(): an upsert that changed no row (a live record has this id) is reported as %s'
                    % ('inspects' if rows and not unchecked else 'does NOT inspect', 'DuplicateId' if rows and not unchecked else 'success although nothing was written'))
-    h = ctx.need('C13.R1', 'as_unknown_id_error', ctx.fb.body(SQ, 'pavex_session_sqlx::sqlite::as_unknown_id_error'))
+    h = ctx.fb.body(SQ, 'pavex_session_sqlx::sqlite::as_unknown_id_error')     # (if the mapping lives in a helper of that name: its own shape)
     if h is not None:
         ok = False
         for bb, j, st in h.all_assigns():
